@@ -856,6 +856,24 @@ def program_c18(rnd):
                 call_next = Invoke(Var(cname), name, [])
             else:
                 call_next = Call(Var(cname), [])
+        # the call may pass through a native that runs callbacks on its own call frame: that frame is part of
+        # the back trace ("native:0 in each()"), and another such native may have run and returned before
+        if level > 1 and rnd.random() < 0.35:
+            via = rnd.choice(["each", "reduce", "all", "any", "sort", "eachmap"])
+            q, q2 = fresh("q"), fresh("q")
+            pre = []
+            if rnd.random() < 0.5:
+                # a different native with a frame runs to completion first (inside the callback)
+                pre = [Let(fresh("sum"), Invoke(Invoke(List([Num(1), Num(2)]), "iter", []), "all", [Lambda([q2], Bool(True))]))] if rnd.random() < 0.5 else \
+                      [Let(fresh("sum"), Invoke(Invoke(List([Num(1), Num(2)]), "iter", []), "reduce", [Num(0), Lambda([q2, fresh("q")], Num(0))]))]
+            src = Invoke(List([Num(1)]), "iter", [])
+            if via == "each": call_next = Invoke(src, "each", [Lambda([q], Block(pre + [ExprSt(call_next)]))])
+            elif via == "eachmap":
+                call_next = Invoke(Invoke(src, "map", [Lambda([q], Block(pre + [ExprSt(call_next), Return(Num(1))]))]), "each", [Lambda([q2], Num(0))])
+            elif via == "reduce": call_next = Invoke(src, "reduce", [Num(0), Lambda([q, fresh("q")], Block(pre + [ExprSt(call_next), Return(Num(0))]))])
+            elif via == "all": call_next = Invoke(src, "all", [Lambda([q], Block(pre + [ExprSt(call_next), Return(Bool(True))]))])
+            elif via == "any": call_next = Invoke(src, "any", [Lambda([q], Block(pre + [ExprSt(call_next), Return(Bool(False))]))])
+            else: call_next = Invoke(List([Num(2), Num(1)]), "sort", [Lambda([q, fresh("q")], Block(pre + [ExprSt(call_next), Return(Num(0))]))])
     top = [ExprSt(call_next)]
     if catch_at == 0:
         top = catch_wrap(top, 0)
